@@ -304,6 +304,8 @@ class Rig:
             ghost = (w & must)
             if ghost:
                 return 'model claims %s were rewritten, the implementation kept the same objects' % sorted(ghost)
+            if 'c=0' in toks[3:]:
+                return 'protocol table clears(%s) differs from what the interpreter wrote in this state: %s' % (what, toks[2])
             return None
         check.history = hist
         check.what = what
@@ -710,6 +712,50 @@ def calibrate_cases(ctx, stream, n):
                 pass
 
 
+def valid_cases(ctx, stream, n):
+    """`validEdges` (hypothesis ValidW2P of the theorems) is exactly what the wavelength_to_pixel setter accepts"""
+    from cherab.tools.spectroscopy import Spectrometer
+    rng = ctx.rng
+    for it in range(n):
+        a = gen_edges(rng)
+        k = rng.random()
+        if k < 0.15:
+            a = a[:1]
+        elif k < 0.3 and len(a) > 2:
+            i = rng.randrange(1, len(a))
+            a[i] = a[i - 1]                       # equal neighbours
+        elif k < 0.45 and len(a) > 2:
+            i = rng.randrange(1, len(a))
+            a[i - 1], a[i] = a[i], a[i - 1]       # one inversion
+        elif k < 0.5:
+            a = list(reversed(a))
+        elif k < 0.55:
+            a = []
+        try:
+            Spectrometer((a,), 1)
+            st = '1'
+        except ValueError:
+            st = '0'
+        except Exception as e:  # noqa
+            st = exc_kind(e)
+
+        def chk(out, st=st, a=a):
+            return None if out == st else 'validEdges: model %s, setter %s for %r' % (out, st, a)
+        chk.history, chk.what = dict(edges=a), 'validEdges'
+        stream.add('valid %d %s' % (len(a), fs(a)), chk, 'value:valid-edges')
+        ctx.count('valid-edges:' + st)
+        ctx.case(key=('valid', fs(a)))
+    # empty tuple of arrays: accepted by the setter, every derived setting raises ValueError (model: none)
+    inst = Spectrometer(([1.0, 2.0],), 1)
+    inst.wavelength_to_pixel = ()
+
+    class _R:
+        pass
+    r = _R()
+    r.inst, r.cname, r.params = inst, 'Spectrometer', dict(wavelength_to_pixel=[], min_bins_per_pixel=1)
+    value_lines(ctx, r, stream)
+
+
 # ------------------------------------------------------------------------------------------------ deps stream
 def deps_check(ctx, stream, vals, tab, base):
     """`deps` derived in Lean from the table  vs.  perturbing each parameter of a real instrument"""
@@ -862,7 +908,7 @@ def run(ctx):
             for p in setters:
                 exercise(ctx, Rig(ctx, tab, stream, vals), [('get', g), ('set', p), ('get', g)], stream)
         # random histories with invalid assignments sprinkled in
-        for it in range(ctx.n(40, 600)):
+        for it in range(ctx.n(40, 2000)):
             ops = []
             for _ in range(rng.randint(1, 12)):
                 k = rng.random()
@@ -877,10 +923,11 @@ def run(ctx):
             exercise(ctx, Rig(ctx, tab, stream, vals), ops, stream, sample=it < 2)
             ctx.count('random-history:' + cname)
     ctx.extra['exhaustive_parts'] = 'all ordered pairs of setters per class with every observable read in between; all ordered triples for classes with <= 4 setters (every class at thorough tier)'
-    for _ in range(ctx.n(60, 600)):
+    for _ in range(ctx.n(60, 2000)):
         spec = gen_filter(rng)
         filter_lines(ctx, stream, spec, make_filter(spec))
-    calibrate_cases(ctx, stream, ctx.n(150, 2500))
+    calibrate_cases(ctx, stream, ctx.n(150, 6000))
+    valid_cases(ctx, stream, ctx.n(150, 5000))
 
     # 4. run the model on everything that was recorded
     outs = ctx.driver(stream.lines)
@@ -961,6 +1008,5 @@ def replay(ctx, path):
         print('replayed on the current tree: %s' % ('still fails: ' + ', '.join(f['signature'] for f in ctx.failing) if ctx.failing or ctx.known_hits else 'no longer fails'))
     for b in r.get('broken', []):
         print('broken obligation recorded in the replay:', b.get('kind'), b.get('name'))
-    if not rr:
-        run(ctx)
+    run(ctx)          # the full check as well, so that the evidence file of a replay run is complete
     return ctx.finish()
